@@ -35,7 +35,7 @@ def check(pid, text, note, technique, ref):
     }
 CHECKS = [
  check("C05",
-  "Seeded search: each run is one simulated client session (own forked process) with 1-3 related workloads (one of the 237 settings, conforming cell incl. axes up to 320 A, margin-respecting shell) and interleaved calls of genhkl_all (tools/laue, by number or by name), each under its own schedule of the process-global numpy RNG stream (seed, prior consumption, steals between draws, hostile reseed before a draw, stream left by the previous call); the returned rows are compared as a set with a brute-force reference (all hkl in the bounding box, extinction from the group's own (R,t) operators), across schedules and call histories, by-name vs by-number and hexagonal vs rhombohedral setting. Run indices 0-765 enumerate all settings x modules and all ordered pairs of settings sharing a condition vector on different axes. One recorded finding (KF-traversal) is attributed through a frozen baseline-traversal model and pinned witnesses. A clean batch is sampling evidence, not proof.",
+  "Seeded search: each run is one simulated client session (own forked process) with 1-3 related workloads (one of the 237 settings, conforming cell incl. axes up to 320 A, margin-respecting shell) and interleaved calls of genhkl_all (tools/laue, by number or by name), each under its own schedule of the process-global numpy RNG stream (seed, prior consumption, steals between draws, hostile reseed before a draw, stream left by the previous call); the returned rows are compared as a set with a brute-force reference (all hkl in the bounding box, extinction from the group's own (R,t) operators), across schedules and call histories, by-name vs by-number and hexagonal vs rhombohedral setting. Run indices 0-765 enumerate all settings x modules and all ordered pairs of settings sharing a condition vector on different axes. A call may be pre-empted at a traced line by the second party's own genhkl call on a real second thread (baton passing, cooperative locks); the client may overwrite returned arrays; logging configuration, calling convention and cell container vary per run; C05 adds 8 000 (quick) / 400 000 (thorough) stream-state sweep sessions. One recorded finding (KF-traversal) is attributed through a frozen baseline-traversal model and pinned witnesses. A clean batch is sampling evidence, not proof.",
   "Trusted: the brute-force oracle (xsim/oracle_hkl.py), numpy's MT19937, the frozen baseline-reachability model used only to attribute the recorded traversal finding. Crafted MT19937 keys are out of scope (not a seed).",
   "deterministic simulation: seeded RNG-stream schedules with contention faults + brute-force reference model", "3.1"),
  check("C06",
@@ -43,11 +43,11 @@ CHECKS = [
   "Trusted: brute-force oracle and orbit computation from the group's own rot[:nuniq]; shell bounds stay 1e-9 away from lattice values so inclusive/exclusive cannot be separated.",
   "deterministic simulation: seeded RNG-stream schedules with contention faults + Laue-orbit reference model", "3.2"),
  check("C19",
-  "Seeded operation-and-fault histories (<=30 API calls on 1-3 parameters objects, 1-3 files, reused caller-side dicts, read-backs scheduled per step) run against a dictionary reference model; saveparameters/loadparameters run on the real CPython TextIOWrapper/Buffered* stack over a simulated raw disk (inode semantics) that injects ENOSPC, EIO, short writes, EINTR, failing close, short reads, ENOENT/EACCES, a competing writer between operations or in the middle of a read, and process death in the middle of a save; acknowledged save => typed round trip, a load delivers one whole file, a crash never damages another acknowledged file. Violations are shrunk to a minimal replayable op+fault trace.",
+  "Seeded operation-and-fault histories (<=30 API calls on 1-3 parameters objects, 1-3 files, reused caller-side dicts, read-backs scheduled per step) run against a dictionary reference model; saveparameters/loadparameters run on the real CPython TextIOWrapper/Buffered* stack over a simulated raw disk (inode semantics) that injects ENOSPC, EIO, short writes, EINTR, failing close, short reads, ENOENT/EACCES, a competing writer between operations or in the middle of a read, and process death in the middle of a save; the simulated file system also answers os.path.exists/stat/remove/rename/replace/chmod, os.open/read/write/fdopen on its descriptors, io.FileIO and '+' modes, so atomic-save or descriptor-level refactorings stay on it; acknowledged save => typed round trip, a load delivers one whole file, a crash never damages another acknowledged file. Violations are shrunk to a minimal replayable op+fault trace.",
   "Trusted: the dict model (xsim/c19.py), CPython io. Ints up to 2**1401, NaN-free floats, values up to 70 000 characters; no power-loss durability is asserted (the code never fsyncs and the property does not promise it).",
   "deterministic simulation: seeded API histories with simulated-disk I/O fault injection vs dictionary model", "3.3"),
  check("C20",
-  "Seeded histories (<=60 ops) of valid/invalid assignments to the process-global switch interleaved with guarded calls (9 functions in tools+laue plus symmetry.Umis; valid, clearly-invalid and malformed inputs in several containers, held by the client as objects that it may overwrite in place) against a one-boolean reference model; per-call outcome oracle; read-backs of the switch scheduled per step; calls pre-empted at an arbitrary traced line by a simulated second party that assigns the switch or makes a guarded call of its own (outcome must be linearizable, switch must end at the last valid assignment).",
+  "Seeded histories (<=60 ops) of valid/invalid assignments to the process-global switch interleaved with guarded calls (9 functions in tools+laue plus symmetry.Umis; valid, clearly-invalid and malformed inputs in several containers, held by the client as objects that it may overwrite in place) against a one-boolean reference model; per-call outcome oracle; read-backs of the switch scheduled per step; two real client threads under a baton (each operation names its thread; locks of the code under test are cooperative); calls pre-empted at an arbitrary traced line by the other thread, which assigns the switch or makes a guarded call of its own (outcome must be linearizable, switch must end at the last valid assignment).",
   "Trusted: the boolean model and input classification (xsim/c20.py). Normal interpreter only (python -O disables checks by documented design).",
   "deterministic simulation: seeded histories on shared global state with pre-emption injection (sys.settrace) vs boolean model", "3.4"),
 ]
